@@ -74,12 +74,6 @@ def repairedSys (C : Consts) (s : Shared) (reqs : List Req) (tys : List Nat) : S
 def currentSys (C : Consts) (s : Shared) (reqs : List Req) (tys : List Nat) : Sys Shared Local :=
   mkSys s (reqs.map (serveProg C false) ++ tys.map loadProg)
 
-private theorem mem_mkSys {s : Shared} {progs : List (List Act)} {t : Thread Shared Local}
-    (h : t ∈ (mkSys s progs).threads) : t.loc = {} ∧ t.todo ∈ progs := by
-  simp only [mkSys, List.mem_map] at h
-  obtain ⟨p, hp, rfl⟩ := h
-  exact ⟨rfl, hp⟩
-
 /-- **Repaired server: requests do not interfere.** For any routing tree, registry, error objects
 (shared between requests or not, with or without `Message`/`Status`), any list of requests (any
 mix of successes, fresh errors, shared error objects, plain errors, panics, unknown resources and
